@@ -419,6 +419,7 @@ def check(model, rep):
         rep.ob('R15.6', gp, 'getPosition returns the stored position', bool(rets_gp) and all(t in ('self.position', 'self.position.copy()') for t in rets_gp),
                'getPosition returns %s' % rets_gp)
     writers = set()
+    removers = set()
     for f_ in model.all_funcs:
         for n in walk_own(f_.node):
             if isinstance(n, ast.Call) and isinstance(n.func, ast.Attribute) and n.func.attr in ('append', 'extend', 'insert', 'remove', 'pop', 'clear') \
@@ -427,8 +428,20 @@ def check(model, rep):
             if isinstance(n, (ast.Assign, ast.AugAssign)) and any(isinstance(t, ast.Attribute) and t.attr == 'obstructions'
                                                                    for t in (n.targets if isinstance(n, ast.Assign) else [n.target])):
                 writers.add(f_.qualname)
+            # removing or replacing registered boxes: `del x.obstructions[...]`, `x.obstructions[...] = ...`
+            if isinstance(n, ast.Delete) and any(isinstance(b_, ast.Attribute) and b_.attr == 'obstructions' for t in n.targets for b_ in ast.walk(t)):
+                removers.add(f_.qualname)
+            if isinstance(n, (ast.Assign, ast.AugAssign)) and any(isinstance(t, ast.Subscript) and isinstance(t.value, ast.Attribute) and t.value.attr == 'obstructions'
+                                                                   for t in (n.targets if isinstance(n, ast.Assign) else [n.target])):
+                removers.add(f_.qualname)
+            if isinstance(n, ast.Call) and isinstance(n.func, ast.Attribute) and n.func.attr in ('remove', 'pop', 'clear') \
+                    and isinstance(n.func.value, ast.Attribute) and n.func.value.attr == 'obstructions':
+                removers.add(f_.qualname)
     rep.ob('R15.4', ini, 'writers of the obstruction list', writers <= {'RRTStar.__init__', 'RRTStar.addObstruction'},
            'the obstruction list is also written by %s' % sorted(writers - {'RRTStar.__init__', 'RRTStar.addObstruction'}))
+    rep.ob('R15.4', ini, 'registered boxes are never removed or replaced', not removers,
+           '%s deletes / overwrites entries of the obstruction list: a box the caller registered is no longer part of the set the test runs over (the '
+           'answer is "free" for segments that hit it), whatever else was appended in between' % sorted(removers))
     # R15.3 addObstruction
     ao = cls.methods.get('addObstruction')
     if ao is None:
